@@ -7,6 +7,7 @@ package main
 // explorer is blind to (unsynchronised accesses), as its assumptions say.
 
 import (
+	"context"
 	"fmt"
 	"os"
 	"os/exec"
@@ -142,10 +143,19 @@ func freeRacePass(c *Check) {
 		c.Set("free_race_pass", "not run: "+bin+" has not been built (setup.sh builds it)")
 		return
 	}
-	cmd := exec.Command(bin, c.ID, "--tier", c.Tier, "--free-race")
+	// the free-running pass normally takes well under a minute; without the scheduler a deadlock of the real code would
+	// block it forever, so it is bounded by ten minutes (the scheduled exploration is what reports deadlocks precisely)
+	ctx, cancelRun := context.WithTimeout(context.Background(), 10*time.Minute)
+	defer cancelRun()
+	cmd := exec.CommandContext(ctx, bin, c.ID, "--tier", c.Tier, "--free-race")
 	cmd.Env = append(os.Environ(), "GORACE=halt_on_error=1 exitcode=66")
 	out, err := cmd.CombinedOutput()
 	text := string(out)
+	if ctx.Err() == context.DeadlineExceeded {
+		c.Violation("free-run-hang", map[string]interface{}{"kind": "the free-running (unscheduled) pass of the same harness bodies did not terminate within 10 minutes: deadlock or livelock of the real code", "output_tail": trunc(text, 3000)})
+		c.Set("free_race_pass", "did not terminate within 10 minutes")
+		return
+	}
 	if ee, ok := err.(*exec.ExitError); ok && ee.ExitCode() == 66 || strings.Contains(text, "WARNING: DATA RACE") {
 		// key: the first two source locations of the report
 		var locs []string
